@@ -324,6 +324,14 @@ func genKey(r *hx.RNG, maxLen int) string {
 	return tohex(b)
 }
 
+// extendKey returns k followed by one 0xff byte (an end bound that covers exactly k and its extensions up to ff)
+func extendKey(k string) string {
+	if k == "-" {
+		return "ff"
+	}
+	return k + "ff"
+}
+
 func genWop(r *hx.RNG, sep string) string {
 	switch x := r.Intn(10); {
 	case x < 6:
@@ -391,9 +399,20 @@ func genCase(r *hx.RNG, n int, strictBias int) []Op {
 			ops = append(ops, Op{K: "newbatch", Flag: ix})
 		case x < 50:
 			if h := pickOpen(r, g.batches); h >= 0 {
+				// range deletes inside batches are part of the contract (recorded like Pebble's
+				// range tombstones); re-use a recently written key often so that
+				// put / delete-range / put-again orders on one key occur
 				w := genWop(r, " ")
-				if strings.HasPrefix(w, "delrange") && r.Chance(strictBias) {
-					w = "put " + genKey(r, 3) + " " + genKey(r, 2)
+				if len(ops) > 0 && r.Chance(35) {
+					if last := ops[len(ops)-1]; last.K == "bw" && last.H == h {
+						f := strings.Fields(last.W)
+						switch {
+						case f[0] == "put" && r.Bool():
+							w = "delrange " + f[1] + " " + extendKey(f[1])
+						case f[0] == "delrange":
+							w = "put " + f[1] + " " + genKey(r, 2)
+						}
+					}
 				}
 				ops = append(ops, Op{K: "bw", H: h, W: w})
 			}
@@ -493,8 +512,14 @@ func genCase(r *hx.RNG, n int, strictBias int) []Op {
 			o := Op{K: "helper", Flag: r.Bool(), Fail: r.Chance(35), Rd: "_"}
 			for i := r.Intn(4); i > 0; i-- {
 				w := genWop(r, ":")
-				if strings.HasPrefix(w, "delrange") && r.Chance(strictBias) {
-					w = "del:" + genKey(r, 3)
+				if n := len(o.Ws); n > 0 && r.Chance(40) {
+					f := strings.Split(o.Ws[n-1], ":")
+					switch {
+					case f[0] == "put" && r.Bool():
+						w = "delrange:" + f[1] + ":" + extendKey(f[1])
+					case f[0] == "delrange":
+						w = "put:" + f[1] + ":" + genKey(r, 2)
+					}
 				}
 				o.Ws = append(o.Ws, w)
 			}
